@@ -233,7 +233,8 @@ def native_union(chk, cat, root, pattern_names):
     res = chk.native.run(jobs)
     dirres = res[0]
     variants = {v: n for n, v in [(a, b) for a, b in CATS[cat]['patterns']]}
-    name_of = {a: b for a, b in CATS[cat]['patterns']}
+    from . import reportlib as _rl
+    name_of = dict(_rl.CATS[cat]['table'])              # every pattern of the category: variant as printed -> configured name
     got = None
     if dirres[0] == 'OK':
         got = []
